@@ -363,9 +363,166 @@ def window_rule(ctx, repo):
     else:
         ctx.ok({'predicate': ast.unparse(cond)[:90]})
 
+def ffwd_rule(ctx, repo):
+    """C13.9: fast-forwarding `loops` iterations of a sampling loop that counts with INC r / DEC r must leave the counter at counter +/- loops
+    with the flags of the last INC / DEC, i.e. read the table entry for counter + loops - 1 / counter - loops + 1, and must stop before the
+    counter would leave 1..255 (clamp 255 - counter / counter - 1).  Python and C are each held against that, over a grid of values."""
+    ctx.rule('C13.9-fast-forward', 'sampling-loop fast-forward: table index == counter + loops - 1 (INC) / counter - loops + 1 (DEC) and clamp == 255 - counter / counter - 1, in LoadTracer._read_port and in C read_port', floor=6)
+    grid = [(c, l) for c in (1, 2, 17, 128, 200, 254, 255) for l in (1, 2, 5, 100)]
+    want = {'INC': lambda c, l: c + l - 1, 'DEC': lambda c, l: c - l + 1}
+    clamp = {'INC': lambda c: 255 - c, 'DEC': lambda c: c - 1}
+    # Python
+    lt = repo.mod('loadtracer')
+    rp = lt.method('LoadTracer', '_read_port')
+    found = {}
+    clamps = {}
+    for n in ast.walk(rp):
+        if isinstance(n, ast.Subscript) and isinstance(n.value, ast.Name) and n.value.id in ('INC0', 'DEC0') and isinstance(n.ctx, ast.Load):
+            found[n.value.id[:3]] = n
+        if isinstance(n, ast.Call) and isinstance(n.func, ast.Name) and n.func.id == 'min' and len(n.args) == 2 and 'counter' in ast.unparse(n.args[1]):
+            clamps['INC' if '255' in ast.unparse(n.args[1]) else 'DEC'] = n.args[1]
+    if set(found) != {'INC', 'DEC'} or set(clamps) != {'INC', 'DEC'}:
+        raise FactError('skoolkit/loadtracer.py: fast-forward table reads / clamps in _read_port not found (%s, %s)' % (sorted(found), sorted(clamps)))
+    for kind in ('INC', 'DEC'):
+        bad = None
+        for c, l in grid:
+            got = Lit(repo, 'loadtracer', {'counter': c, 'loops': l}).ev(found[kind].slice)
+            if got != want[kind](c, l):
+                bad = 'table index `%s` gives %d for counter %d, loops %d; %d iterations of %s r end on entry %d' % (ast.unparse(found[kind].slice), got, c, l, l, kind, want[kind](c, l))
+                break
+            gc = Lit(repo, 'loadtracer', {'counter': c}).ev(clamps[kind])
+            if gc != clamp[kind](c):
+                bad = 'clamp `%s` gives %d for counter %d, expected %d' % (ast.unparse(clamps[kind]), gc, c, clamp[kind](c))
+                break
+        if bad:
+            ctx.violation('fast-forward %s (Python)' % kind, 'skoolkit/loadtracer.py:%d' % found[kind].lineno, bad)
+        else:
+            ctx.ok({'side': 'python', 'kind': kind, 'index': ast.unparse(found[kind].slice)})
+    # C
+    facts = cfacts.load(repo.root)
+    for build in ('plain', 'cont'):
+        if build not in facts:
+            raise FactError('c facts: build %s missing' % build)
+        u = cfacts.CUnit(facts[build])
+        fn = u.funcs.get('read_port')
+        if fn is None:
+            raise FactError('c/csimulator.c: read_port not found')
+        idx = {}
+        cl = {}
+        def names(x, out):
+            if x.get('kind') in ('DeclRefExpr',):
+                out.add(x.get('ref') or (x.get('referencedDecl') or {}).get('name'))
+            if x.get('kind') == 'MemberExpr':
+                out.add(x.get('name'))
+            for y in x.get('inner', []):
+                names(y, out)
+            return out
+        def walk(n):
+            if n.get('kind') == 'ArraySubscriptExpr':
+                base, index = n['inner'][0], n['inner'][1]
+                bn = names(base, set())
+                inner_sub = cfacts.strip(base)
+                if inner_sub.get('kind') == 'ArraySubscriptExpr':      # INC[0][index]
+                    for t in ('INC', 'DEC'):
+                        if t in bn and 'counter' in names(index, set()):
+                            idx[t] = index
+            if n.get('kind') == 'ConditionalOperator':
+                a, b = n['inner'][1], n['inner'][2]
+                na, nb = names(a, set()), names(b, set())
+                if 'counter' in na and 'counter' in nb and 'loops' not in na and not any(x in na for x in ('INC', 'DEC')):
+                    cl['INC'], cl['DEC'] = a, b
+            for c in n.get('inner', []):
+                walk(c)
+        walk(fn)
+        if set(idx) != {'INC', 'DEC'} or set(cl) != {'INC', 'DEC'}:
+            raise FactError('c/csimulator.c (%s): fast-forward table reads / clamp in read_port not found (%s, %s)' % (build, sorted(idx), sorted(cl)))
+        def cev(n, env):
+            n = cfacts.strip(n)
+            k = n.get('kind')
+            if k == 'IntegerLiteral': return int(n['value'])
+            if k == 'DeclRefExpr': return env[n.get('ref') or (n.get('referencedDecl') or {}).get('name')]
+            if k == 'BinaryOperator':
+                a, b = cev(n['inner'][0], env), cev(n['inner'][1], env)
+                return {'+': a + b, '-': a - b, '*': a * b}[n['opcode']]
+            raise FactError('c/csimulator.c: fast-forward expression uses %s' % k)
+        for kind in ('INC', 'DEC'):
+            bad = None
+            for c, l in grid:
+                got = cev(idx[kind], {'counter': c, 'loops': l})
+                if got != want[kind](c, l):
+                    bad = 'table index gives %d for counter %d, loops %d; %d iterations of %s r end on entry %d' % (got, c, l, l, kind, want[kind](c, l))
+                    break
+                gc = cev(cl[kind], {'counter': c})
+                if gc != clamp[kind](c):
+                    bad = 'clamp gives %d for counter %d, expected %d' % (gc, c, clamp[kind](c))
+                    break
+            if bad:
+                ctx.violation('fast-forward %s (C %s)' % (kind, build), 'c/csimulator.c (read_port)', bad)
+            else:
+                ctx.ok({'side': 'C ' + build, 'kind': kind})
+
+def config_rule(ctx, repo):
+    """C13.10: the loading configuration must not depend on which implementation runs it.  In tap2sna.sim_load the only thing the
+    `python` option (or the availability of the C modules) may decide is the simulator class: an assignment to `options.*`, a change to the
+    accelerator list or to the tracer configuration that is control-dependent on that test gives the two implementations different work."""
+    ctx.rule('C13.10-config', 'tap2sna.sim_load: no loader setting (options.*, accelerators, tracer config) is assigned under a test of the python option or of the availability of the C simulators', floor=3)
+    m = repo.mod('tap2sna')
+    fn = m.funcs.get('sim_load')
+    if fn is None:
+        raise FactError('skoolkit/tap2sna.py: sim_load not found')
+    IMPL = ('options.python', 'CSimulator', 'CCMIOSimulator')
+    def impl_test(t):
+        src = ast.unparse(t)
+        return any(x in src for x in IMPL)
+    seen = 0
+    found_choice = False
+    def visit(stmts, under):
+        nonlocal seen, found_choice
+        for st in stmts:
+            if isinstance(st, ast.If):
+                u = under or (impl_test(st.test) and st)
+                visit(st.body, u)
+                visit(st.orelse, u)
+                continue
+            if isinstance(st, (ast.For, ast.While, ast.With, ast.Try)):
+                for part in ('body', 'orelse', 'finalbody'):
+                    visit(getattr(st, part, []) or [], under)
+                for h in getattr(st, 'handlers', []):
+                    visit(h.body, under)
+                continue
+            setting = None
+            if isinstance(st, (ast.Assign, ast.AugAssign)):
+                tgs = st.targets if isinstance(st, ast.Assign) else [st.target]
+                for t in tgs:
+                    base = t
+                    while isinstance(base, ast.Subscript):
+                        base = base.value
+                    if isinstance(base, ast.Attribute) and isinstance(base.value, ast.Name) and base.value.id == 'options':
+                        setting = ast.unparse(t)
+                    elif isinstance(base, ast.Name) and base.id in ('accelerators', 'config', 'tracer_config', 'sim_config'):
+                        setting = ast.unparse(t)
+                    elif isinstance(base, ast.Name) and base.id == 'simulator_cls':
+                        found_choice = True
+            elif isinstance(st, ast.Expr) and isinstance(st.value, ast.Call) and isinstance(st.value.func, ast.Attribute) and isinstance(st.value.func.value, ast.Name) \
+                    and st.value.func.value.id in ('accelerators', 'config') and st.value.func.attr in ('clear', 'append', 'extend', 'remove', 'pop', 'update', 'insert', 'add', 'discard'):
+                setting = ast.unparse(st.value)
+            if setting:
+                seen += 1
+                if under:
+                    ctx.violation('setting ' + setting.split('=')[0].strip(), 'skoolkit/tap2sna.py:%d' % st.lineno, '`%s` is executed only under the test `%s` (line %d): the Python and the C simulator then load the tape with different settings' % (ast.unparse(st)[:80], ast.unparse(under.test)[:60], under.lineno))
+                else:
+                    ctx.ok({'setting': setting[:50], 'line': st.lineno})
+    visit(fn.body, None)
+    if not found_choice:
+        raise FactError('skoolkit/tap2sna.py: the simulator class choice in sim_load is not recognised')
+    if seen < 3:
+        raise FactError('skoolkit/tap2sna.py: only %d loader settings found in sim_load' % seen)
+
 def run(ctx):
     repo = pyfacts.Repo(ctx.repo_root)
     dec_a_rule(ctx, repo)
+    ffwd_rule(ctx, repo)
+    config_rule(ctx, repo)
     tables_rule(ctx, repo)
     accelerator_rule(ctx, repo)
     from sa.rules.C10 import next_int_rule
